@@ -245,6 +245,17 @@ func (s *Server) Response() []byte {
 	return b.Bytes()
 }
 
+// ReMAC recomputes M_S and MAC_S over body = Y' | AUTH | P_S with nothing but
+// public knowledge (identity public key, node ID, hour): what an on-path
+// attacker who knows the bridge line can do.
+func ReMAC(id Identity, body []byte, hour int64) []byte {
+	k := id.macKey()
+	out := append([]byte(nil), body...)
+	out = append(out, mac128(k, body[:ReprLen])...)
+	out = append(out, mac128(k, out, HourString(hour))...)
+	return out
+}
+
 // ---- key schedule ---------------------------------------------------------------------
 
 // Keys splits the 144-byte KDF output: client->server first.
